@@ -14,15 +14,15 @@ from ..terms import mkint, mkatom, mklist, mkc, NIL, show
 ID = 'C42'
 LEVEL = 'exploration'
 RULE = ('layouts of 2-4 modules over the names p q r s: random definitions, export lists, import edges to earlier modules (all exports or a '
-        'selected list), no name imported twice or both defined and imported (the documentation leaves those open); probes inside '
+        'selected list), also selective imports of a name that the importing module then defines itself (its own definition must win and the exporter must keep its own); no name imported from two modules; probes inside '
         'every module for every name: unqualified call, call/1, call through the meta-predicate mcall/1 of a separate module, and '
         'findall/3 (a builtin meta-predicate); from user: Module:Name for defined names and for names neither defined nor imported, '
         'unqualified calls of names imported into user. distinct = distinct (layout, probe); non-trivial = name visible through an import')
 PARAMS = {'quick': {'n': 60}, 'thorough': {'n': 4000}}
 MIN_EVAL = {'quick': 6000, 'thorough': 400000}
-STRATA = ['own-definition', 'imported-all', 'imported-selected', 'not-visible', 'qualified-call', 'meta-predicate-argument', 'call-1', 'same-name-independent']
+STRATA = ['own-definition', 'redefined-after-import', 'imported-all', 'imported-selected', 'not-visible', 'qualified-call', 'meta-predicate-argument', 'call-1', 'same-name-independent']
 ASSUMPTIONS = ['a name that a module neither defines nor imports raises existence_error when called there, even if another loaded module or user defines it',
-               'layouts in which a module imports one name from two modules, or imports a name it also defines, are not generated']
+               'layouts in which a module imports one name from two modules, or imports all exports of a module while defining one of them, are not generated']
 
 NAMES = ['p', 'q', 'r', 's']
 
@@ -43,15 +43,23 @@ def shard(ctx):
         path = lambda m: '%s/%s.pl' % (root, m)
         with open(path(mc), 'w') as f:
             f.write(':- module(%s, [mcall/1]).\n:- meta_predicate(mcall(0)).\nmcall(G) :- call(G).\n' % mc)
-        defs, exps, imps = {}, {}, {}
+        defs, exps, imps, redefs = {}, {}, {}, {}
         for k, m in enumerate(mods):
             d = set(n for n in NAMES if rng.random() < 0.55)
             e = set(n for n in d if rng.random() < 0.7)
             visible = set(d)
             im = []
+            redefined = set()
             for j in range(k):
                 if rng.random() < 0.6:
                     avail = [n for n in sorted(exps[mods[j]]) if n not in visible]
+                    redef = [n for n in sorted(exps[mods[j]]) if n in d and not any(n in names for _, _, names in im)]
+                    if redef and rng.random() < 0.35:
+                        # selective import of a name the module then defines itself: the own definition wins, the exporter keeps its own
+                        sel = rng.sample(redef, rng.randint(1, len(redef)))
+                        im.append((mods[j], sorted(sel), []))
+                        redefined.update(sel)
+                        continue
                     if not avail:
                         continue
                     if rng.random() < 0.5 and all(n not in visible for n in exps[mods[j]]):
@@ -62,6 +70,7 @@ def shard(ctx):
                         im.append((mods[j], sorted(sel), sorted(sel)))
                         visible |= set(sel)
             defs[m], exps[m], imps[m] = d, e, im
+            redefs[m] = redefined
             lines = [':- module(%s, [%s]).' % (m, ', '.join(['%s/1' % n for n in sorted(e)] + ['u_%s/1' % n for n in NAMES] + ['c_%s/1' % n for n in NAMES] +
                                                               ['m_%s/1' % n for n in NAMES] + ['f_%s/1' % n for n in NAMES] + [m + '_marker/0'])),
                      ":- use_module('%s')." % path(mc)]
@@ -94,7 +103,7 @@ def shard(ctx):
 
         def resolve(m, n):
             if n in defs[m]:
-                return m, 'own-definition'
+                return m, ('redefined-after-import' if n in redefs[m] else 'own-definition')
             for (j, sel, names) in imps[m]:
                 if n in names:
                     return j, ('imported-all' if sel is None else 'imported-selected')
